@@ -1,7 +1,7 @@
 """Per-property and per-suite configuration of the orchestrator."""
 
 # .vo files Extract.v depends on (built before extraction)
-EXTRACT_DEPS = ['Codec/FilterCase.vo', 'Agent/ReasmRs.vo', 'Agent/Model.vo', 'Agent/Monitors.vo', 'Codec/WireMon.vo', 'Codec/EncodeMsg.vo', 'Proofs/ArcHeapProofs.vo', 'Codec/AttrValue.vo', 'Codec/WireFull.vo', 'Codec/Message.vo']
+EXTRACT_DEPS = ['Codec/FilterCase.vo', 'Agent/ReasmRs.vo', 'Agent/Model.vo', 'Agent/Monitors.vo', 'Codec/WireMon.vo', 'Codec/EncodeMsg.vo', 'Proofs/ArcHeapProofs.vo', 'Codec/AttrValue.vo', 'Codec/WireFull.vo', 'Codec/Message.vo', 'Codec/Keys.vo']
 
 SUITES = {
     'attrval': dict(bin='attrval', nontrivial=r'^C [DE] '),
@@ -81,7 +81,7 @@ PROPS = {
     'C12': dict(suites=['agent'], monitors=['C12'], rule=AGENT_RULE, assumptions=AGENT_ASSUME + []),
     'C13': dict(suites=['agent'], monitors=['C13'], rule=AGENT_RULE, assumptions=AGENT_ASSUME + []),
     'C17': dict(suites=['agent'], monitors=['C17'], rule=AGENT_RULE, assumptions=AGENT_ASSUME + []),
-    'C04': dict(suites=['wire'], monitors=['C04acc', 'C04fault'], rule=WIRE_RULE, assumptions=WIRE_ASSUME),
+    'C04': dict(suites=['wire'], monitors=['C04acc', 'C04fault', 'C04key'], rule=WIRE_RULE, assumptions=WIRE_ASSUME),
     'C10': dict(suites=['wire', 'agent'], monitors=['C10acc', 'C10fault', 'C10'], rule=WIRE_RULE + ' + ' + AGENT_RULE, assumptions=WIRE_ASSUME + AGENT_ASSUME),
     'C18': dict(suites=['filter', 'wire'], monitors=['C18all', 'C18', 'C18ud'], rule=WIRE_RULE + ' + suite filter (see C09)', assumptions=WIRE_ASSUME),
     'C14': dict(suites=['encbuf', 'encbuf-release'], monitors=['C14'],
